@@ -306,6 +306,30 @@ class ModelDriver:
         if a == "SetBounds":
             self.get_rxn(model, op["r"]).bounds = (self.to_bound(op["lo"]), self.to_bound(op["hi"]))
             return None
+        if a == "BuildFromString":
+            rxn = self.get_rxn(model, op["r"])
+            terms = {m: op["d"][m] for m in MET if op["d"][m] != 0}
+            for m in terms:
+                self.get_met(model, m)
+
+            def side(sign):
+                out = []
+                for m, k in terms.items():
+                    if (k < 0) == (sign < 0):
+                        out.append(("%d %s" % (abs(k), self.met[m])) if abs(k) != 1 else self.met[m])
+                return " + ".join(out)
+            arrow = {"fwd": "-->", "rev": "<--", "both": "<=>"}[op["arrow"]]
+            text = "%s %s %s" % (side(-1), arrow, side(1))
+            if any(" " in self.met[m] or "+" in self.met[m] for m in terms):
+                raise Skip("identifier not expressible in a reaction string")
+            rxn.build_reaction_from_string(text)
+            return None
+        if a == "SetFunctional":
+            self.get_gene(model, op["g"]).functional = bool(op["b"])
+            return None
+        if a == "Repair":
+            model.repair()
+            return None
         if a == "RxnArith":
             rxn = self.get_rxn(model, op["r"])
             q = self.get_rxn(model, op["q"])
